@@ -96,7 +96,12 @@ def script(sc, context):
             return
     sc.commit_all("mid")
     op = rng.choice(["none", "rebase", "cherry"])
-    if op == "rebase":
+    if getattr(sc, "force_rewrite", None):
+        op = sc.force_rewrite
+    if op == "rebase-same-file":
+        # the full replay (upstream changed the same file): prompt records are looked up in older notes with internal `git grep` / `git log` calls
+        sc.op_rebase(kind="plain", upstream_where="same")
+    elif op == "rebase":
         sc.op_rebase(kind="plain")
     elif op == "cherry":
         sc.op_cherry_pick(kind="one")
@@ -189,18 +194,27 @@ def run_case(case):
     else:
         names = prng.sample(names_pool, prng.choice([1, 2, 3, 5]))
     context = prng.choice(CONTEXTS)
+    force_rewrite = None
+    if prng.random() < 0.25:
+        # settings that reach the internal calls of the rewrite paths are paired with a rewrite that takes the full replay
+        force_rewrite = "rebase-same-file"
+        extra = prng.choice([n for n in ("grep-fixed", "grep-perl", "color-ui", "color-diff", "i18n", "pager", "abbrev", "notes-display") if n in names_pool])
+        if extra not in names:
+            names = names + [extra]
     if case.get("force_settings") is not None:      # triage aid: tools/rerun.py C12 <seed> <index> <flags> '{"force_settings": [...], "force_context": "root"}'
         names = list(case["force_settings"])
     context = case.get("force_context", context)
     base = Hist("C12", seed, index, prof)
     var = None
     try:
+        base.force_rewrite = force_rewrite
         script(base, "root")
         if base.viol or base.inconclusive or base.in_progress():
             return C.finish(base, prof, index)
         ref = projection(base)
         var = Hist("C12", seed, index, prof)
         apply_settings(var.w, names, var.w.root)
+        var.force_rewrite = force_rewrite
         script(var, context)
         if var.inconclusive or var.in_progress():
             base.inconclusive = "variant run: %s" % (var.inconclusive or "in progress")
